@@ -16,7 +16,7 @@
 From Coq Require Import List NArith ZArith Bool Lia Sorting.Sorted.
 From Oxia.KeyOrder Require Import Model Proofs.
 From Oxia.Db Require Import Types Bytes Escape Keys Kv SortedMap SortedMapProofs KeyFacts Sessions Indexes
-     Sequences Notifications Write Read Spec KvProofs NumProofs Proofs_C12 NotifStream C17_Hex C17_Batch.
+     Sequences Notifications Write Read Spec KvProofs NumProofs Proofs_C12 NotifStream C17_Hex C17_Batch C17_Cover.
 Import ListNotations.
 Open Scope Z_scope.
 
@@ -1257,4 +1257,29 @@ Theorem trim_reachable cfg ops now retention t st' :
 Proof.
   intros Hu Hs. cbn zeta. intro T. destruct (inv_run cfg ops Hu Hs) as [I _].
   exact (trim_char cfg _ now retention t st' I (ops_small_next cfg ops Hu Hs) T).
+Qed.
+
+(* The batch of the request applied next says what happened to EVERY user key: a key inside a reported range holds
+   no record afterwards; otherwise CREATED v / MODIFIED v mean "holds a record with version v", DELETED means
+   "holds none", and a key the batch does not mention holds what it held before. *)
+Theorem batch_covers_reachable cfg ops req ts st' resp :
+  ops_user ops -> user_request req -> ops_small (ops ++ [HWrite req ts]) ->
+  process_write wrapper_callbacks cfg (h_st (hrun cfg ops)) req (h_next (hrun cfg ops)) ts = (st', Ok resp) ->
+  exists nm,
+    stored_batch st' (h_next (hrun cfg ops)) = Some (mkNBatch (cfg_shard cfg) (h_next (hrun cfg ops)) ts nm) /\
+    forall k, is_internal k = false ->
+      let in_range := exists a b, nm_get nm a = Some (NRangeDeleted b) /\ key_in_range (Some a) (Some b) k = true in
+      (in_range -> uv (st_kv st') k = None) /\
+      (~ in_range -> point_ok (nm_get nm k) (uv (st_kv (h_st (hrun cfg ops))) k) (uv (st_kv st') k)).
+Proof.
+  intros Hu Hr Hs P.
+  destruct (batch_of_request_reachable cfg ops req ts st' resp Hu Hr Hs P) as [nm [S [_ [Hg _]]]].
+  exists nm. split; [exact S|].
+  destruct (inv_run cfg ops Hu (ops_small_app _ _ Hs)) as [I _].
+  destruct (refines_spec _ _ _ _ _ _ _ (i_wf _ _ I) Hr P) as [s' [Sw [[Sr _] _]]]. simpl in Sr.
+  pose proof (changes_cover (abs_state (h_st (hrun cfg ops))) req (map seq_choice_of (wr_puts resp)) ts Hr) as C.
+  rewrite Sw in C. cbn [fst] in C.
+  intros k Hi. cbn zeta. destruct (C k Hi) as [C1 C2]. rewrite Sr. split.
+  - intros [a [b [H1 H2]]]. apply C1. exists a, b. rewrite <- Hg. split; assumption.
+  - intro Hn. rewrite Hg. apply C2. intros [a [b [H1 H2]]]. apply Hn. exists a, b. rewrite Hg. split; assumption.
 Qed.
